@@ -234,7 +234,16 @@ func CheckFields(input PDU) error { // nolint: gocyclo
 		return errors.New("gomatrixserverlib: auth events and prev events must not be nil")
 	}
 	// RoomID() cannot report an error: it panics on events that fail this check.
-	if roomID := gjson.GetBytes(input.JSON(), "room_id"); roomID.Exists() {
+	// If room_id was sent more than once it is the last copy that counts, as it
+	// does for encoding/json, which filled in the field that RoomID() reads.
+	var roomID gjson.Result
+	gjson.ParseBytes(input.JSON()).ForEach(func(key, value gjson.Result) bool {
+		if key.Str == "room_id" {
+			roomID = value
+		}
+		return true
+	})
+	if roomID.Exists() {
 		if _, err := spec.NewRoomID(roomID.String()); err != nil {
 			return fmt.Errorf("gomatrixserverlib: invalid room ID %q: %w", roomID.String(), err)
 		}
